@@ -31,3 +31,17 @@ CHECKS["C20"] = {
                     "cached objective values are private: they are checked through the positions they select, not read directly"],
     "determinism_runs": 3000,
 }
+
+CHECKS["C06"] = {
+    "id": "C06", "engine": "persist", "flavour": "asan", "binary": "build/asan/c06", "level": "exploration",
+    "tiers": {"quick": {"runs": 24000, "batch": 250, "wall_cap": 420}, "thorough": {"runs": 400000, "batch": 500, "wall_cap": 2400}},
+    "rule": "one case = a seeded grid configuration (family, rule, dims, outputs, depth, type, weights, limits, transforms) + a seeded history of 0-8 operations "
+            "(load, overwriting reload, surplus/anisotropic refinement, update, merge, clear, setHierarchicalCoefficients, begin/candidates+loadConstructedPoints/finish, "
+            "copy, transforms, removePoints) + format x entry point + medium faults + 1-4 continuation operations; distinct = distinct (grid state shape incl. point set, format, entry)",
+    "components": {"real": ["TasmanianSparseGrid write/read (binary, ASCII; stream and file entry points) and every per-family reader/writer", "libstdc++ iostreams and basic_filebuf"],
+                   "simulated": ["file system under /simfs/ (fopen64/read/write/writev/lseek/fclose interposed): short reads, short writes, EINTR", "stream medium delivering/accepting 1..k byte chunks"]},
+    "expect_probes": ["reach.written_during_construction", "reach.written_with_pending_refinement", "reach.zero_outputs", "reach.overwriting_reload"],
+    "assumptions": ["derived numerics compared to 1e-11 relative to the section's scale; stored data bit-for-bit",
+                    "histories respect documented preconditions (see sim/tsg_common.hpp applyOp): no clearRefinement on never-loaded grids, construction without conformal maps, anisotropic refinement without level limits, full-range copies while constructing"],
+    "determinism_runs": 1500, "exec_timeout": 120, "batch_timeout": 600,
+}
